@@ -179,7 +179,7 @@ pub fn run(rep: &mut Rep) {
     let seed = rep.seed;
     let mut case = 0u64;
     // ---- register::Response::new assembles 0x04 ‖ x ‖ y
-    let n = rep.n(2000, 100_000);
+    let n = rep.n(2000, 1_000_000);
     for _ in 0..n * rep.nshards {
         case += 1;
         if !rep.mine(case) {
@@ -284,7 +284,7 @@ pub fn run(rep: &mut Rep) {
         }
     }
     // ---- random + history: a chain of appends into one buffer equals the concatenation
-    let n = rep.n(3000, 300_000);
+    let n = rep.n(3000, 5_000_000);
     for _ in 0..n * rep.nshards {
         case += 1;
         if !rep.mine(case) {
